@@ -155,6 +155,14 @@ def ops_for(s, indices, parts_, full=True):
     if not full:
         return
     for i in indices:
+        # substitute: the documented non-mutating twin of element assignment;
+        # an index at or beyond the end appends (unspecified, not judged),
+        # one before the start has no element and must not wrap around
+        if i < n:
+            x = "x" if is_str else 9
+            yield ("substitute", f"substitute({L}, {i}, {lit(x)})",
+                   m_assign(s, i, x), nt(i))
+    for i in indices:
         if is_str:
             yield ("assign",
                    f"(fn(t) do t[{i}] = 'x'; t end)({fresh(s)})",
